@@ -5,6 +5,7 @@ import (
 	"runtime"
 
 	"github.com/massnetorg/mass-core/poc"
+	"massnet.org/mass/verifhook"
 )
 
 // MemCache runs without mutex for better performance
@@ -70,6 +71,12 @@ type SeekerWriter interface {
 
 const memCacheWriteBlockSize = 256 * poc.MiB
 
+// writeBlockSize is memCacheWriteBlockSize (the verif build can lower it, so
+// that windows of small tables are flushed in several blocks too).
+func writeBlockSize() int64 {
+	return int64(verifhook.Size("plot.writeblock", memCacheWriteBlockSize))
+}
+
 func (cache *MemCache) WriteToWriter(quit chan struct{}, w SeekerWriter, srcStart, dstStart, len int64) (n int, err error) {
 	if int(srcStart+len) > cache.size || int(srcStart) >= cache.size {
 		err = io.EOF
@@ -88,8 +95,8 @@ func (cache *MemCache) WriteToWriter(quit chan struct{}, w SeekerWriter, srcStar
 			}
 		}
 
-		if remain := len - count; remain > memCacheWriteBlockSize {
-			bufSize = memCacheWriteBlockSize
+		if remain := len - count; remain > writeBlockSize() {
+			bufSize = writeBlockSize()
 		} else {
 			bufSize = remain
 		}
